@@ -52,7 +52,10 @@ SPEC = {
     're-run directly with the arguments flax passes; if lax itself disagrees the case is recorded under a_conv_assumption_failed '
     'and is not a verdict. Observation (jax 0.11.2 / XLA:CPU): lax.conv_general_dilated with a NEGATIVE explicit pad combined with '
     'feature_group_count > 1 returns wrong (even non-integer, run-dependent) values, e.g. x[2,7,4], k[4,2,2], stride 3, '
-    'padding [(-1,3)], groups 2; negative pads stay in the generator (they are legal). XLA can also abort the worker process inside '
+    'padding [(-1,3)], groups 2; negative pads stay in the generator (they are legal). Second observation: lax.reduce_window(x, inf, lax.min, ...) '
+    'with explicit padding on two window axes returns a wrong row on XLA:CPU (x[1,3,2,1], window (1,3,1,1), padding ((0,0),(1,1),(3,2),(0,0))), '
+    'with and without jit. The direct-primitive probe covers every thin-wrapper family: conv (conv_general_dilated[_local], '
+    'conv_transpose, jnp.pad), pooling (reduce_window), Embed (jnp.take / dot), Dense / DenseGeneral (dot_general), Einsum (jnp.einsum). XLA can also abort the worker process inside '
     'Compile() on such inputs: the worker is restarted after the case, which is listed under xla_process_abort (at most 3 per worker, '
     'otherwise exit 2); neither is ever reported as a violation',
   ],
@@ -439,7 +442,13 @@ def ev_dense(c):
     y = (x.astype(np.float64)[..., :, None] * k.astype(np.float64)).sum(-2)
     return (y + b) if b is not None else y
 
-  return {'linen': _out(linen), 'nnx': _out(nx), 'oracle': _out(oracle), 'lean': [['dense', {'x': c['x'], 'k': c['k'], 'bias': c.get('bias')}]]}
+  def prim():
+    got = np.asarray(J['jax'].lax.dot_general(_jarr(x), _jarr(k), (((x.ndim - 1,), (0,)), ((), ()))), dtype=np.float64)
+    want = (x.astype(np.float64)[..., :, None] * k.astype(np.float64)).sum(-2)
+    return got.shape == want.shape and bool(np.array_equal(got, want))
+
+  res = {'linen': _out(linen), 'nnx': _out(nx), 'oracle': _out(oracle), 'lean': [['dense', {'x': c['x'], 'k': c['k'], 'bias': c.get('bias')}]]}
+  return _lax_probe(res, prim)
 
 
 def ev_dense_general(c):
@@ -473,7 +482,17 @@ def ev_dense_general(c):
     return np_dense_general(x, k, b, axis, bd)
 
   req = {'x': c['x'], 'k': c['k'], 'bias': c.get('bias'), 'axis': list(axis), 'batch_dims': list(bd), 'nfeat': len(feats)}
-  return {'linen': _out(linen), 'nnx': _out(nx), 'oracle': _out(oracle), 'lean': [['dense_general', req]]}
+  def prim():
+    nd = x.ndim
+    ax = tuple(sorted(a % nd for a in axis))
+    bdn = tuple(sorted(b % nd for b in bd))
+    nbd = len(bdn)
+    got = np.asarray(J['jax'].lax.dot_general(_jarr(x), _jarr(k), ((ax, tuple(range(nbd, nbd + len(ax)))), (bdn, tuple(range(nbd))))), dtype=np.float64)
+    want = np_dense_general(x, k, None, axis, bd)
+    return got.shape == want.shape and bool(np.array_equal(got, want))
+
+  res = {'linen': _out(linen), 'nnx': _out(nx), 'oracle': _out(oracle), 'lean': [['dense_general', req]]}
+  return _lax_probe(res, prim)
 
 
 def ev_einsum(c):
@@ -507,7 +526,16 @@ def ev_einsum(c):
     return y
 
   req = {'lhs': c['lhs'], 'rhs': c['rhs'], 'out': c['out'], 'x': c['x'], 'k': c['k'], 'bias': c.get('bias')}
-  return {'linen': _out(linen), 'nnx': _out(nx), 'oracle': _out(oracle), 'lean': [['einsum', req]]}
+  def prim():
+    L = 'abcdefghijklmnopqrstuvwxyz'
+    lhs, rhs, out = c['lhs'], c['rhs'], c['out']
+    got = np.asarray(J['jnp'].einsum(spec.replace(' ', ''), _jarr(x), _jarr(k)), dtype=np.float64)
+    want = np.einsum(''.join(L[i] for i in lhs) + ',' + ''.join(L[i] for i in rhs) + '->' + ''.join(L[i] for i in out),
+                     x.astype(np.float64), k.astype(np.float64))
+    return got.shape == want.shape and bool(np.array_equal(got, want))
+
+  res = {'linen': _out(linen), 'nnx': _out(nx), 'oracle': _out(oracle), 'lean': [['einsum', req]]}
+  return _lax_probe(res, prim)
 
 
 def _pad_arg(p):
@@ -543,10 +571,16 @@ def lax_direct_conv(c, x, k, mask, local):
   want = np_conv(dict(c, padding=c['padding']), xf, k, None, mask, local)
   if pad in ('CIRCULAR', 'REFLECT'):
     pads = [(0, 0)] + [((dilated_k(ks[j], rd[j]) - 1) // 2, dilated_k(ks[j], rd[j]) // 2) for j in range(nsp)] + [(0, 0)]
-    xf = np.pad(xf, pads, mode={'CIRCULAR': 'wrap', 'REFLECT': 'reflect'}[pad])
+    mode = {'CIRCULAR': 'wrap', 'REFLECT': 'reflect'}[pad]
+    if not np.array_equal(np.asarray(jnp.pad(jnp.asarray(xf), pads, mode=mode)), np.pad(xf, pads, mode=mode)):
+      return False  # jnp.pad itself does not meet the numpy semantics
+    xf = np.pad(xf, pads, mode=mode)
     pad = 'VALID'
   elif pad == 'CAUSAL':
-    xf = np.pad(xf, [(0, 0), (rd[0] * (ks[0] - 1), 0), (0, 0)])
+    pads = [(0, 0), (rd[0] * (ks[0] - 1), 0), (0, 0)]
+    if not np.array_equal(np.asarray(jnp.pad(jnp.asarray(xf), pads)), np.pad(xf, pads)):
+      return False
+    xf = np.pad(xf, pads)
     pad = 'VALID'
   nd = xf.ndim
   dn = lax.ConvDimensionNumbers((0, nd - 1) + tuple(range(1, nd - 1)), (nd - 1, nd - 2) + tuple(range(0, nd - 2)), (0, nd - 1) + tuple(range(1, nd - 1)))
@@ -579,10 +613,11 @@ def lax_direct_conv_transpose(c, x, k, mask):
   return got.shape == want.shape and bool(np.array_equal(got, want))
 
 
-def _lax_probe(res, fn):
+def _lax_probe(res, fn, differs=None):
   """adds res['lax_ok'] when an implementation voice differs from the reference"""
   o = res['oracle']
-  if o[0] == 'ok' and any(api in res and _differs(res[api], o) for api in ('linen', 'nnx')):
+  differs = differs or _differs
+  if o[0] == 'ok' and any(api in res and differs(res[api], o) for api in ('linen', 'nnx')):
     r = call(fn)
     res['lax_ok'] = r[1] if r[0] == 'ok' else 'err:' + str(r[1])
   return res
@@ -715,8 +750,19 @@ def ev_embed(c):
       return (q.astype(np.float64)[..., None, :] * table.astype(np.float64)).sum(-1)
 
     res['lean'] = [['attend', {'table': c['table'], 'query': c['query']}]]
+  def prim():
+    if c['op'] == 'lookup':
+      if n == 1:
+        got = np.asarray(jnp.broadcast_to(_jarr(table)[0], idx.shape + (f,)), dtype=np.float64)
+      else:
+        got = np.asarray(jnp.take(_jarr(table), jnp.asarray(idx), axis=0), dtype=np.float64)
+    else:
+      got = np.asarray(jnp.dot(_jarr(q), _jarr(table).T), dtype=np.float64)
+    want = np.asarray(oracle(), dtype=np.float64)
+    return got.shape == want.shape and bool(np.array_equal(got, want, equal_nan=True))
+
   res.update(linen=_out(linen), nnx=_out(nx), oracle=_out(oracle))
-  return res
+  return _lax_probe(res, prim)
 
 
 def ev_pool(c):
@@ -759,8 +805,37 @@ def ev_pool(c):
   else:
     req['is_max'] = op == 'max'
     lean = [['ext_pool', req]]
+  def prim():
+    # lax.reduce_window exactly as pooling.pool documents: 1s for the batch / feature dims, (0,0) pads there
+    lax, jnp = J['jax'].lax, J['jnp']
+    nw = len(window)
+    xb = x if x.ndim - (nw + 1) >= 1 else x[None]
+    nbd = xb.ndim - (nw + 1)
+    dims = (1,) * nbd + window + (1,)
+    strd = (1,) * nbd + (strides or (1,) * nw) + (1,)
+    pad = padding if isinstance(padding, str) else ((0, 0),) * nbd + padding + ((0, 0),)
+    vals, dens, empty = np_pool(op, xb, list(window), strides, c['padding'], c.get('count_include_pad', True))
+    if op == 'avg':
+      got = np.asarray(lax.reduce_window(jnp.asarray(xb), 0.0, lax.add, dims, strd, pad), dtype=np.float64)
+      if got.shape != vals.shape or not np.array_equal(got, vals):
+        return False
+      if not c['count_include_pad']:
+        ones = np.asarray(lax.reduce_window(jnp.ones(xb.shape[:-1] + (1,), np.float32), 0.0, lax.add, dims, strd, pad), dtype=np.float64)
+        want = np.broadcast_to(dens.reshape((1,) * nbd + dens.shape + (1,)), ones.shape[:nbd] + dens.shape + (1,))
+        return bool(np.array_equal(ones, want))
+      return True
+    init, fn = (-np.inf, lax.max) if op == 'max' else (np.inf, lax.min)
+    got = np.asarray(lax.reduce_window(jnp.asarray(xb), init, fn, dims, strd, pad), dtype=np.float64)
+    want = np.where(np.broadcast_to(empty.reshape((1,) * nbd + empty.shape + (1,)), vals.shape), init, vals)
+    return got.shape == want.shape and bool(np.array_equal(got, want))
+
+  def pdiff(r, o):
+    exp = pool_expected(op, o[1]['num'], o[1]['den'], o[1]['empty'])
+    return not pool_matches(r, o[1]['s'], exp)
+
   from flax.linen import pooling
-  return {'linen': wrap(run(pooling)), 'nnx': wrap(run(nnx)), 'oracle': call(oracle), 'lean': lean}
+  res = {'linen': wrap(run(pooling)), 'nnx': wrap(run(nnx)), 'oracle': call(oracle), 'lean': lean}
+  return _lax_probe(res, prim, pdiff)
 
 
 def _fl(arr):
@@ -1442,20 +1517,30 @@ def _short(r):
   return ['ok', r[1].get('s') if isinstance(r[1], dict) else None, (v[:24] if isinstance(v, list) else v)]
 
 
+def _record_aconv(ctx, kind, case, ev, oracle):
+  """the primitive flax wraps, called directly with the arguments flax passes, does not meet the reference on this input:
+  assumption A-CONV fails here (JAX/XLA), not flax's plumbing.  Counted and listed, never a violation."""
+  ctx.count('a_conv_assumption_failed', kind)
+  lst = ctx.extra.setdefault('a_conv_assumption_failed', [])
+  if len(lst) < 20:
+    lst.append({'config': _cfg(case), 'shapes': {k: v['s'] for k, v in case.items() if isinstance(v, dict) and 's' in v},
+                'case': _strip(case) if sum(len(v.get('d', [])) for v in case.values() if isinstance(v, dict)) <= 200 else None,
+                'impl': {api: _short(ev[api]) for api in ('linen', 'nnx') if api in ev},
+                'reference': _short(oracle) if isinstance(oracle[1], dict) and 's' in oracle[1] and ('d' in oracle[1] or 'f' in oracle[1]) else str(oracle)[:300]})
+
+
 def judge_exact(ctx, case, ev, lean):
   kind = case['kind'] + ('-local' if case.get('local') else '') + (('-' + case['op']) if case['kind'] == 'embed' else '')
   oracle = ev['oracle']
   bad = False
   if ev.get('lax_ok') is False:
-    # the lax primitive itself, called directly with the arguments flax passes, does not meet the direct-sum reference on this
-    # input: assumption A-CONV fails here (JAX/XLA), not flax's plumbing.  Counted and listed, never a violation.
-    ctx.count('a_conv_assumption_failed', kind)
-    lst = ctx.extra.setdefault('a_conv_assumption_failed', [])
-    if len(lst) < 20:
-      lst.append({'config': _cfg(case), 'x_shape': case['x']['s'], 'k_shape': case['k']['s'],
-                  'impl': {api: _short(ev[api]) for api in ('linen', 'nnx') if api in ev}, 'reference': _short(oracle)})
+    _record_aconv(ctx, kind, case, ev, oracle)
     m = lean[0]
-    if not same_exact([m[0], m[1]], oracle):
+    if case['kind'] == 'embed' and case['op'] == 'lookup':
+      mm = ['ok', {'s': oracle[1]['s'], 'f': m[1]}] if m[0] == 'ok' else ['err', m[1]]
+    else:
+      mm = [m[0], m[1]]
+    if not same_exact(mm, oracle):
       ctx.disagreements_checked += 1
       ctx.violation(f'{kind}-model-mismatch', f'Lean model and direct-sum reference differ on {kind}: config={_cfg(case)}', _strip(case), concrete=False)
     return
@@ -1486,36 +1571,42 @@ def _cfg(case):
   return {k: v for k, v in case.items() if not (isinstance(v, dict) and 'd' in v) and k not in ('steps',) and not k.startswith('_')}
 
 
+def pool_expected(op, nums, dens, empties):
+  out = []
+  for n, d, e in zip(nums, dens, empties):
+    if op == 'avg':
+      out.append(None if d == 0 else Fraction(n, d))
+    else:
+      out.append(('-inf' if op == 'max' else 'inf') if e else Fraction(n))
+  return out
+
+
+def pool_matches(r, exp_shape, exp):
+  if r[0] != 'ok' or list(r[1]['s']) != list(exp_shape) or r[1].get('dt') != 'float32':
+    return False
+  for got, want in zip(r[1]['v'], exp):
+    if want is None:
+      if got is not None and not math.isnan(got):
+        return False
+    elif want in ('inf', '-inf'):
+      if got != float(want):
+        return False
+    else:
+      w = float(want)
+      if got is None or abs(got - w) > 3 * U32 * abs(w):
+        return False
+  return True
+
+
 def judge_pool(ctx, case, ev, lean):
   kind = 'pool-' + case['op']
   o = ev['oracle']
   m = lean[0]
-
-  def expected_from(nums, dens, empties):
-    out = []
-    for n, d, e in zip(nums, dens, empties):
-      if case['op'] == 'avg':
-        out.append(None if d == 0 else Fraction(n, d))
-      else:
-        out.append(('-inf' if case['op'] == 'max' else 'inf') if e else Fraction(n))
-    return out
-
-  def matches(r, exp_shape, exp):
-    if r[0] != 'ok' or list(r[1]['s']) != list(exp_shape) or r[1].get('dt') != 'float32':
-      return False
-    for got, want in zip(r[1]['v'], exp):
-      if want is None:
-        if got is not None and not math.isnan(got):
-          return False
-      elif want in ('inf', '-inf'):
-        if got != float(want):
-          return False
-      else:
-        w = float(want)
-        if got is None or abs(got - w) > 3 * U32 * abs(w):
-          return False
-    return True
-
+  expected_from = lambda nums, dens, empties: pool_expected(case['op'], nums, dens, empties)
+  matches = pool_matches
+  if ev.get('lax_ok') is False:
+    _record_aconv(ctx, kind, case, ev, o)
+    return
   if o[0] == 'err':
     for api in ('linen', 'nnx'):
       if ev[api][0] != 'err':
